@@ -46,3 +46,18 @@ pub fn serialize_attribute_html(content: &str) -> String {
 pub fn normalize_xml_id(value: &str) -> String {
     crate::parse::verif_normalize_xml_id(value)
 }
+
+/// `encoding::xml_declaration`: the encoding an XML declaration at the start of the data names
+pub fn xml_declaration_encoding(data: &[u8]) -> Option<String> {
+    crate::encoding::verif_xml_declaration(data)
+}
+
+/// `encoding::encoding`: the name of the encoding chosen for the data (`None`: no known one)
+pub fn encoding_name(data: &[u8]) -> Option<&'static str> {
+    crate::encoding::encoding(data, None).map(|e| e.name())
+}
+
+/// `encoding::decode`
+pub fn decode(data: &[u8]) -> String {
+    crate::encoding::decode(data, None)
+}
